@@ -129,13 +129,13 @@ func plans() []sp.Plan {
 		{Name: "full-alphabet", Cfgs: cfgs(true), AlName: "full", Deltas: []uint32{0, 1, 128}, CloseDeltas: []uint32{0, 1},
 			Add2: true, MaxEvents: ctx.Pick(2, 3), MaxTracks: 2},
 		{Name: "small-alphabet-deeper", Cfgs: cfgs(true), AlName: "small", Deltas: []uint32{0, 128}, CloseDeltas: []uint32{0},
-			Add2: false, MaxEvents: ctx.Pick(3, 4), MaxTracks: ctx.Pick(2, 3)},
+			Add2: false, MaxEvents: ctx.Pick(3, 4), MaxTracks: 2},
 		{Name: "write-in-history", Cfgs: cfgs(false), AlName: "tiny", Deltas: []uint32{0, 1}, CloseDeltas: []uint32{0},
 			Write: true, MaxWrites: 2, MaxEvents: ctx.Pick(3, 4), MaxTracks: 3},
 		{Name: "from-read-then-extend", Cfgs: fromRead(cfgs(false)), AlName: "tiny", Deltas: []uint32{0, 1}, CloseDeltas: []uint32{0},
 			Write: true, MaxWrites: 1, MaxEvents: ctx.Pick(3, 4), MaxTracks: 4},
 		{Name: "tiny-alphabet-deepest", Cfgs: cfgs(ctx.Thorough()), AlName: "tiny", Deltas: []uint32{0, 1}, CloseDeltas: []uint32{0},
-			Add2: true, MaxEvents: ctx.Pick(4, 6), MaxTracks: ctx.Pick(2, 3)},
+			Add2: true, MaxEvents: ctx.Pick(4, 5), MaxTracks: ctx.Pick(2, 3)},
 	}
 }
 
